@@ -105,12 +105,13 @@ func main() {
 			srcs[f] = src
 		}
 		structs := collectStructs(parsed)
+		globals := collectGlobals(parsed)
 		for _, f := range files {
 			af := parsed[f]
 			if af == nil {
 				continue
 			}
-			eds := rewrite(fset, af, structs, !*noAccess, stats)
+			eds := rewrite(fset, af, structs, globals, !*noAccess, stats)
 			if len(eds) == 0 {
 				if *as != "" {
 					// shadow mode: every file of the scratch tree replaces its counterpart
@@ -233,7 +234,94 @@ func importName(f *ast.File, path string) (string, *ast.ImportSpec) {
 	return "", nil
 }
 
-func rewrite(fset *token.FileSet, f *ast.File, structs map[string]map[string]bool, access bool, stats map[string]int) []edit {
+// globalKind: how uses of a package-level variable are classified.
+//
+//	1 = plain (slice/array/map/basic): only syntactic writes are writes
+//	2 = byte buffer ([]byte, [N]byte): additionally, handing it (or a slice of it) to a call is a write
+//	3 = stateful standard-library value: every use is a write
+type globalVar struct {
+	kind int
+	spec *ast.ValueSpec
+}
+
+func typeKind(t ast.Expr) int {
+	switch x := t.(type) {
+	case *ast.ArrayType:
+		if id, ok := x.Elt.(*ast.Ident); ok && id.Name == "byte" {
+			return 2
+		}
+		return 1
+	case *ast.MapType:
+		return 1
+	case *ast.Ident:
+		switch x.Name {
+		case "int", "int8", "int16", "int32", "int64", "uint", "uint8", "uint16", "uint32", "uint64", "uintptr", "bool", "string", "float32", "float64", "byte", "rune":
+			return 1
+		}
+	}
+	if isStatefulType(t) {
+		return 3
+	}
+	return 0
+}
+
+func initKind(e ast.Expr) int {
+	switch x := e.(type) {
+	case *ast.CompositeLit:
+		if x.Type != nil {
+			if k := typeKind(x.Type); k == 1 || k == 2 {
+				return k
+			}
+		}
+	case *ast.CallExpr:
+		if id, ok := x.Fun.(*ast.Ident); ok && (id.Name == "make" || id.Name == "new") && len(x.Args) > 0 {
+			return typeKind(x.Args[0])
+		}
+		if at, ok := x.Fun.(*ast.ArrayType); ok { // []byte("...")
+			return typeKind(at)
+		}
+	case *ast.BasicLit:
+		return 1
+	case *ast.Ident:
+		if x.Name == "true" || x.Name == "false" {
+			return 1
+		}
+	}
+	return 0
+}
+
+// collectGlobals: package-level variables whose memory can be mutated in place (shared mutable package state).
+func collectGlobals(files map[string]*ast.File) map[string]globalVar {
+	res := map[string]globalVar{}
+	for _, f := range files {
+		for _, d := range f.Decls {
+			gd, ok := d.(*ast.GenDecl)
+			if !ok || gd.Tok != token.VAR {
+				continue
+			}
+			for _, sp := range gd.Specs {
+				vs := sp.(*ast.ValueSpec)
+				for i, n := range vs.Names {
+					if n.Name == "_" {
+						continue
+					}
+					k := 0
+					if vs.Type != nil {
+						k = typeKind(vs.Type)
+					} else if i < len(vs.Values) {
+						k = initKind(vs.Values[i])
+					}
+					if k != 0 {
+						res[n.Name] = globalVar{kind: k, spec: vs}
+					}
+				}
+			}
+		}
+	}
+	return res
+}
+
+func rewrite(fset *token.FileSet, f *ast.File, structs map[string]map[string]bool, globals map[string]globalVar, access bool, stats map[string]int) []edit {
 	var eds []edit
 	off := func(p token.Pos) int { return fset.Position(p).Offset }
 	needHook := false
@@ -303,6 +391,22 @@ func rewrite(fset *token.FileSet, f *ast.File, structs map[string]map[string]boo
 				needHook = true
 				stats["access"] += len(a.eds)
 				eds = append(eds, a.eds...)
+			}
+		}
+	}
+	if access && len(globals) > 0 {
+		for _, d := range f.Decls {
+			fd, ok := d.(*ast.FuncDecl)
+			if !ok || fd.Body == nil {
+				continue
+			}
+			g := &globalRewriter{globals: globals, pkg: f.Name.Name, off: off}
+			g.findAliases(fd.Body)
+			g.block(fd.Body.List)
+			if len(g.eds) > 0 {
+				needHook = true
+				stats["global"] += len(g.eds)
+				eds = append(eds, g.eds...)
 			}
 		}
 	}
@@ -482,6 +586,271 @@ func (a *accessRewriter) own(st ast.Stmt, note func(string, bool)) {
 			expr(x.Value)
 		case *ast.DeclStmt:
 			expr(x.Decl)
+		case *ast.BranchStmt, *ast.EmptyStmt:
+		default:
+			die(fmt.Errorf("mkoverlay: unknown statement kind %T", s))
+		}
+	}
+	stmt(st)
+}
+
+// globalRewriter inserts Access notifications for uses of package-level variables (see globalVar).
+type globalRewriter struct {
+	globals map[string]globalVar
+	pkg     string
+	off     func(token.Pos) int
+	eds     []edit
+	alias   map[*ast.Object]string // local variable -> byte-buffer global it was sliced from
+}
+
+// findAliases: locals assigned from (a slice of) a package-level byte buffer share its memory.
+func (g *globalRewriter) findAliases(body *ast.BlockStmt) {
+	g.alias = map[*ast.Object]string{}
+	for pass := 0; pass < 2; pass++ {
+		ast.Inspect(body, func(n ast.Node) bool {
+			as, ok := n.(*ast.AssignStmt)
+			if !ok || len(as.Lhs) != len(as.Rhs) {
+				return true
+			}
+			for i, r := range as.Rhs {
+				root := rootIdent(r)
+				lid, lok := as.Lhs[i].(*ast.Ident)
+				if root == nil || !lok || lid.Obj == nil {
+					continue
+				}
+				if gv, ok := g.isGlobal(root); ok && gv.kind == 2 {
+					g.alias[lid.Obj] = root.Name
+				} else if root.Obj != nil {
+					if gname, ok := g.alias[root.Obj]; ok {
+						g.alias[lid.Obj] = gname
+					}
+				}
+			}
+			return true
+		})
+	}
+}
+
+func (g *globalRewriter) aliasOf(e ast.Expr) (string, bool) {
+	if r := rootIdent(e); r != nil && r.Obj != nil {
+		n, ok := g.alias[r.Obj]
+		return n, ok
+	}
+	return "", false
+}
+
+func (g *globalRewriter) isGlobal(id *ast.Ident) (globalVar, bool) {
+	gv, ok := g.globals[id.Name]
+	if !ok {
+		return gv, false
+	}
+	// resolved identifiers must resolve to the package-level declaration; unresolved ones (declared in
+	// another file of the package) are package-level by construction
+	if id.Obj != nil {
+		if vs, ok := id.Obj.Decl.(*ast.ValueSpec); !ok || vs != gv.spec {
+			return gv, false
+		}
+	}
+	return gv, true
+}
+
+func rootIdent(e ast.Expr) *ast.Ident {
+	for {
+		switch x := e.(type) {
+		case *ast.ParenExpr:
+			e = x.X
+		case *ast.IndexExpr:
+			e = x.X
+		case *ast.SliceExpr:
+			e = x.X
+		case *ast.StarExpr:
+			e = x.X
+		case *ast.Ident:
+			return x
+		default:
+			return nil
+		}
+	}
+}
+
+func (g *globalRewriter) block(list []ast.Stmt) {
+	for _, st := range list {
+		acc := map[string]bool{}
+		var order []string
+		note := func(name string, w bool) {
+			if g.globals[name].kind == 3 {
+				w = true
+			}
+			if old, ok := acc[name]; ok {
+				acc[name] = old || w
+				return
+			}
+			acc[name] = w
+			order = append(order, name)
+		}
+		g.own(st, note)
+		if len(order) > 0 {
+			var sb strings.Builder
+			for _, n := range order {
+				fmt.Fprintf(&sb, "verifhook.Access(&%s, %q, %v); ", n, g.pkg+"."+n, acc[n])
+			}
+			g.eds = append(g.eds, edit{off: g.off(st.Pos()), text: sb.String()})
+		}
+	}
+}
+
+func (g *globalRewriter) own(st ast.Stmt, note func(string, bool)) {
+	var expr func(e ast.Node)
+	expr = func(e ast.Node) {
+		if e == nil {
+			return
+		}
+		ast.Inspect(e, func(n ast.Node) bool {
+			switch x := n.(type) {
+			case *ast.FuncLit:
+				g.block(x.Body.List)
+				return false
+			case *ast.SelectorExpr:
+				expr(x.X) // never look at .Sel
+				return false
+			case *ast.KeyValueExpr:
+				expr(x.Value)
+				if _, isIdent := x.Key.(*ast.Ident); !isIdent {
+					expr(x.Key)
+				}
+				return false
+			case *ast.CallExpr:
+				if id, ok := x.Fun.(*ast.Ident); ok && (id.Name == "delete" || id.Name == "copy") && len(x.Args) >= 1 {
+					if r := rootIdent(x.Args[0]); r != nil {
+						if _, ok := g.isGlobal(r); ok {
+							note(r.Name, true)
+						}
+					}
+				}
+				for _, a := range x.Args {
+					if r := rootIdent(a); r != nil {
+						if gv, ok := g.isGlobal(r); ok && gv.kind == 2 {
+							note(r.Name, true) // a byte buffer handed to a call
+						}
+					}
+					if gname, ok := g.aliasOf(a); ok {
+						note(gname, true) // ... or a local slice of it
+					}
+				}
+			case *ast.UnaryExpr:
+				if x.Op == token.AND {
+					if r := rootIdent(x.X); r != nil {
+						if _, ok := g.isGlobal(r); ok {
+							note(r.Name, true) // address taken: assume it is written through
+						}
+					}
+				}
+			case *ast.Ident:
+				if _, ok := g.isGlobal(x); ok {
+					note(x.Name, false)
+				}
+			}
+			return true
+		})
+	}
+	var stmt func(s ast.Stmt)
+	stmt = func(s ast.Stmt) {
+		switch x := s.(type) {
+		case nil:
+		case *ast.BlockStmt:
+			g.block(x.List)
+		case *ast.AssignStmt:
+			for _, l := range x.Lhs {
+				if _, isIdx := l.(*ast.IndexExpr); isIdx {
+					if gname, ok := g.aliasOf(l); ok {
+						note(gname, true) // element write through a local slice of a global buffer
+					}
+				}
+				if r := rootIdent(l); r != nil && x.Tok != token.DEFINE {
+					if _, ok := g.isGlobal(r); ok {
+						note(r.Name, true)
+					}
+				}
+				if x.Tok != token.DEFINE {
+					expr(l)
+				}
+			}
+			for _, r := range x.Rhs {
+				expr(r)
+			}
+		case *ast.IncDecStmt:
+			if r := rootIdent(x.X); r != nil {
+				if _, ok := g.isGlobal(r); ok {
+					note(r.Name, true)
+				}
+			}
+			expr(x.X)
+		case *ast.IfStmt:
+			stmt(x.Init)
+			expr(x.Cond)
+			g.block(x.Body.List)
+			switch e := x.Else.(type) {
+			case *ast.BlockStmt:
+				g.block(e.List)
+			case *ast.IfStmt:
+				stmt(e)
+			}
+		case *ast.ForStmt:
+			stmt(x.Init)
+			expr(x.Cond)
+			stmt(x.Post)
+			g.block(x.Body.List)
+		case *ast.RangeStmt:
+			expr(x.X)
+			g.block(x.Body.List)
+		case *ast.SwitchStmt:
+			stmt(x.Init)
+			expr(x.Tag)
+			for _, c := range x.Body.List {
+				cc := c.(*ast.CaseClause)
+				for _, e := range cc.List {
+					expr(e)
+				}
+				g.block(cc.Body)
+			}
+		case *ast.TypeSwitchStmt:
+			stmt(x.Init)
+			stmt(x.Assign)
+			for _, c := range x.Body.List {
+				g.block(c.(*ast.CaseClause).Body)
+			}
+		case *ast.SelectStmt:
+			for _, c := range x.Body.List {
+				cc := c.(*ast.CommClause)
+				stmt(cc.Comm)
+				g.block(cc.Body)
+			}
+		case *ast.LabeledStmt:
+			stmt(x.Stmt)
+		case *ast.ExprStmt:
+			expr(x.X)
+		case *ast.ReturnStmt:
+			for _, r := range x.Results {
+				expr(r)
+			}
+		case *ast.DeferStmt:
+			expr(x.Call)
+		case *ast.GoStmt:
+			expr(x.Call)
+		case *ast.SendStmt:
+			expr(x.Chan)
+			expr(x.Value)
+		case *ast.DeclStmt:
+			// local declarations may shadow; their initialisers may read globals
+			if gd, ok := x.Decl.(*ast.GenDecl); ok {
+				for _, sp := range gd.Specs {
+					if vs, ok := sp.(*ast.ValueSpec); ok {
+						for _, v := range vs.Values {
+							expr(v)
+						}
+					}
+				}
+			}
 		case *ast.BranchStmt, *ast.EmptyStmt:
 		default:
 			die(fmt.Errorf("mkoverlay: unknown statement kind %T", s))
